@@ -80,7 +80,7 @@ def classes():
                 if rng.random() < tpl.get("offgrid", 0.0):
                     price += rng.random() * m.tick_size
                 if price <= 0:
-                    price = m.tick_size
+                    price = 0.0 if (tpl.get("allow_zero") and price == 0) else m.tick_size
                 return [Order(agent_id=self.agent_id, market_id=m.market_id, is_buy=is_buy, kind=LIMIT_ORDER,
                               volume=vol, price=price, ttl=ttl)]
             if a == "both":  # quote both sides of one market: forces self-trades
